@@ -7,6 +7,7 @@ the C04-style campaign plus upload-shaped PUT/DELETE/PATCH/POST bodies."""
 from vlib import common as C, serve as S, reqgen as G, strict_http as H, servecheck as K
 from props import c04
 
+DRIVERS = ['Serve']   # model driver files this check runs: scopes translator failures to the tables they (and the proofs) import
 TRUSTED = ['manifest taken by the harness itself (FNV-1a content hash, symlink_metadata)']
 ASSUMPTIONS = ['the proof is about the model\'s effect signature (the file system is an input only); the tie to the code is the inventory, the manifests and (thorough) strace']
 WITH_MODEL = True
